@@ -304,4 +304,20 @@ example : ((runSaves id (MTree.new {}) rs3).bind fun t => (loadStore t.db 3).bin
     (loadVersionForOverwriting m 1).map fun r => (r.2, toListOpt r.1.root, r.1.db.roots.map (·.1))) =
     some (1, [([1], [10])], [1]) := by decide
 
+/-- Multistore level: two substores, three blocks with different iteration orders, rolled back to 1;
+reopening shows height 1 and replaying blocks 2, 3 (in yet other orders) reproduces the commit ids. -/
+private def nA : RootMulti.Name := [97]
+private def nB : RootMulti.Name := [98]
+private def b1 : RootMulti.Name → Option Tree := fun n => if n = nA then some l1 else none
+private def b2 : RootMulti.Name → Option Tree := fun n => if n = nA then some t2 else none
+private def b3 : RootMulti.Name → Option Tree := fun n => if n = nA then some t3 else some (.leaf [7] [7] 3)
+example :
+    ((openMS id (freshDisk [nA, nB]) [nA, nB]).bind fun s0 =>
+      (runMS id s0 [([nA, nB], fullBlock [nA, nB] b1), ([nB, nA], fullBlock [nA, nB] b2), ([nA, nB], fullBlock [nA, nB] b3)]).bind fun r =>
+        (rollbackMS r.1.disk [nA, nB] 1).bind fun back =>
+          (openMS id back.disk [nA, nB]).bind fun m =>
+            (runMS id m [([nA, nB], fullBlock [nA, nB] b2), ([nB, nA], fullBlock [nA, nB] b3)]).map fun r' =>
+              (m.lastCommitID.version, decide (some m.lastCommitID = r.2[0]?), decide (r'.2 = r.2.drop 1),
+               (loadMS id back.disk [nA, nB] 2).isNone)) = some (1, true, true, true) := by decide
+
 end C08
